@@ -1,6 +1,19 @@
 """Per-property configuration of tools/check.py."""
 
 PROPS = {
+    "C07": {
+        "modules": ["BioSeq.Props.C07"],
+        "rule": "rev/comp/revcomp op lines: in-place, copying-on-owned and copying-on-slice forms, each applied once and twice, comp∘rev vs rev∘comp, "
+                "7 codecs for reverse / 5 complementable codecs, lengths {0..3} + word-boundary lengths, slices at every reachable bit offset, "
+                "random values from every production route; the harness also checks that the receiver of a copying form is unchanged; "
+                "non-trivial = carries a non-empty text; distinct = distinct line",
+    },
+    "C11": {
+        "modules": ["BioSeq.Props.C11"],
+        "rule": "iterator op lines: iter/into_iter/rev_iter/windows/chunks/chain (+ IntoIterator for &Seq, Vec<Seq> from chunks) on slices at every "
+                "reachable bit offset, lengths 0,1,5, word-boundary lengths, every width 1..n+2 (and 0 for windows), 7 codecs, random nested slices; "
+                "non-trivial = carries a non-empty text; distinct = distinct line",
+    },
     "C03": {
         "modules": ["BioSeq.Props.C03"],
         "rule": "slicing op lines: 7 codecs (widths 1,2,4,5,6,8) x parent lengths around 1-3 words x every start position reaching every bit offset "
